@@ -28,7 +28,7 @@ pub fn fresh_world() -> MResult<World> {
 }
 
 fn lab(w: &World, id: (u64, u64)) -> String {
-    w.labels.get(&id).map(|s| s.trim_start_matches("outer/parent/").to_string()).unwrap_or_else(|| format!("new-inode"))
+    w.labels.get(&id).map(|s| s.trim_start_matches("outer/parent/").to_string()).unwrap_or_else(|| "new-inode".to_string())
 }
 
 /// canonical, replay-stable text of an execution's outcome
@@ -54,13 +54,11 @@ fn forced_from_json(v: &Value) -> Vec<(u32, String)> {
     v.as_array().map(|a| a.iter().map(|x| (x[0].as_u64().unwrap_or(0) as u32, x[1].as_str().unwrap_or("").to_string())).collect()).unwrap_or_default()
 }
 
-/// Monitor shared by C02/C03/C10: containment at syscall level.
-/// Returns (key, description) of the first problem.
+/// Monitor shared by C02/C03/C10: containment at syscall level. Returns (key, description) of the first problem.
 pub fn containment_monitor(w: &World, out: &ExecOut, check_opens: bool) -> Option<(String, String)> {
     let tree_dev = w.before.get("").map(|n| n.dev).unwrap_or(0);
     let inside = |id: &FdId| out.ever_inside.contains(&(id.dev, id.ino));
     for ev in &out.events {
-        if ev.rval < 0 && ev.injected.is_none() { /* failed calls still count: the attempt was made */ }
         let mutator = matches!(ev.name.as_str(), "unlinkat" | "mkdirat" | "mknodat" | "symlinkat" | "linkat" | "renameat" | "renameat2")
             || (ev.name == "openat" && ev.flags.unwrap_or(0) & (libc::O_CREAT | libc::O_TRUNC) as u64 != 0);
         let opener = matches!(ev.name.as_str(), "openat" | "openat2");
@@ -75,7 +73,7 @@ pub fn containment_monitor(w: &World, out: &ExecOut, check_opens: bool) -> Optio
                     return Some((format!("outside-parent:{}", ev.name), format!("{} acts on an entry of directory {} ({}) which was never inside the root", ev.brief(), fd, lab(w, (id.dev, id.ino)))));
                 }
             }
-            if fd == Some(libc::AT_FDCWD) && (mutator || opener) && ev.path.as_deref().map(|p| p.starts_with("/w") || !p.starts_with('/')).unwrap_or(false) {
+            if fd == Some(libc::AT_FDCWD) && (mutator || opener) && ev.path.as_deref().map(|p| p.starts_with("/w") || !p.starts_with('/')).unwrap_or(false) && ev.path.as_deref() != Some(".") {
                 return Some((format!("cwd-or-absolute:{}", ev.name), format!("{} uses AT_FDCWD/absolute path inside the tree's filesystem", ev.brief())));
             }
         }
@@ -111,7 +109,6 @@ pub fn outside_effects(w: &World, out: &ExecOut) -> MResult<Option<(String, Stri
     let before_ids: BTreeSet<(u64, u64)> = inodes(&w.before);
     for (p, n) in &after {
         if before_ids.contains(&(n.dev, n.ino)) { continue; }
-        // new inode: its parent directory must have been inside
         let parent = match p.rfind('/') { Some(i) => &p[..i], None => "" };
         if let Some(pn) = after.get(parent) {
             if !out.ever_inside.contains(&(pn.dev, pn.ino)) {
@@ -119,48 +116,416 @@ pub fn outside_effects(w: &World, out: &ExecOut) -> MResult<Option<(String, Stri
             }
         }
     }
-    // the jail root's decoys
     for d in ["secret", "a", "e", "sibling"] {
         if lstat(&format!("{}/{}", JAIL, d)).is_none() { return Ok(Some(("outside-removed".into(), format!("jail-root decoy /{} was removed", d)))); }
     }
     Ok(None)
 }
 
-pub struct SysScope {
-    pub scenarios: Vec<Scenario>,
-    pub bound: u32,
-    pub full_alphabet: bool,
-    pub max_exec: u64,
+// ------------------------------------------------------------------------------------------------ C05 discipline automaton
+
+const O_CLOEXEC_: u64 = libc::O_CLOEXEC as u64;
+const O_NOFOLLOW_: u64 = libc::O_NOFOLLOW as u64;
+const O_PATH_: u64 = libc::O_PATH as u64;
+const O_NOCTTY_: u64 = libc::O_NOCTTY as u64;
+
+/// ops in which libpathrs is entitled to follow one trailing procfs link (R3)
+fn follow_allowed(op: &Op) -> bool {
+    matches!(op.name.as_str(), "reopen" | "open_subpath" | "mkdir_all" | "proc_open_follow") || (op.api == "c" && op.name == "proc_open" && op.flags.unwrap_or(0) & libc::O_NOFOLLOW as i64 == 0)
 }
 
-pub fn scope(prop: &str, tier: &str) -> SysScope {
-    let th = tier == "thorough";
-    match prop {
-        "C02" => SysScope { scenarios: lookup_scenarios(th), bound: if th { 2 } else { 1 }, full_alphabet: !th, max_exec: if th { 60_000 } else { 3_000 } },
-        "C03" => SysScope { scenarios: mutating_scenarios(th), bound: if th { 2 } else { 1 }, full_alphabet: !th, max_exec: if th { 60_000 } else { 3_000 } },
-        _ => SysScope { scenarios: vec![], bound: 0, full_alphabet: false, max_exec: 0 },
+/// Returns all rule violations (key, description) of one execution.
+pub fn discipline_monitor(op: &Op, out: &ExecOut, counts: &mut BTreeMap<String, u64>) -> Vec<(String, String)> {
+    let mut v = Vec::new();
+    let root_path = op.root.clone().unwrap_or_default();
+    for ev in &out.events {
+        let name = ev.name.as_str();
+        if matches!(name, "gettid" | "getpid" | "tgkill") { continue; }
+        let maskp = |p: &str| -> String { let mut o = String::new(); let mut ind = false; for c in p.chars() { if c.is_ascii_digit() { if !ind { o.push('#'); ind = true; } } else { ind = false; o.push(c); } } o };
+        let abs = ev.path.as_deref().filter(|p| p.starts_with('/')).map(|p| format!(":{}", maskp(p))).unwrap_or_default();
+        let mut bad = |rule: &str, why: &str| v.push((format!("{}:{}{}", rule, name, if rule.starts_with("R4") || rule.starts_with("R1-dirfd") { abs.clone() } else { String::new() }), format!("{} violates {}: {}", ev.brief(), rule, why)));
+        // descriptor-creating calls: close-on-exec
+        match name {
+            "dup" | "dup2" => bad("cloexec", "dup/dup2 cannot set close-on-exec"),
+            "dup3" => if ev.args[2] & O_CLOEXEC_ == 0 { bad("cloexec", "dup3 without O_CLOEXEC") },
+            "fcntl" => if ev.args[1] as i32 == libc::F_DUPFD { bad("cloexec", "F_DUPFD instead of F_DUPFD_CLOEXEC") },
+            "fsopen" => if ev.args[1] & 1 == 0 { bad("cloexec", "fsopen without FSOPEN_CLOEXEC") },
+            "fsmount" => if ev.args[1] & 1 == 0 { bad("cloexec", "fsmount without FSMOUNT_CLOEXEC") },
+            "open_tree" => if ev.args[2] & O_CLOEXEC_ == 0 { bad("cloexec", "open_tree without OPEN_TREE_CLOEXEC") },
+            "openat" | "open" => {
+                let f = ev.flags.unwrap_or(0);
+                if f & O_CLOEXEC_ == 0 { bad("cloexec", "open without O_CLOEXEC"); }
+                // a directory can never be a terminal: O_DIRECTORY opens cannot acquire a controlling tty
+                if f & O_PATH_ == 0 && f & O_NOCTTY_ == 0 && f & libc::O_DIRECTORY as u64 == 0 { bad("noctty", "non-O_PATH open without O_NOCTTY"); }
+            }
+            "openat2" => if let Some((f, _, _, _)) = ev.how {
+                if f & O_CLOEXEC_ == 0 { bad("cloexec", "openat2 without O_CLOEXEC"); }
+                if f & O_PATH_ == 0 && f & O_NOCTTY_ == 0 && f & libc::O_DIRECTORY as u64 == 0 { bad("noctty", "non-O_PATH openat2 without O_NOCTTY"); }
+            },
+            _ => {}
+        }
+        let path = match &ev.path { Some(p) => p.clone(), None => { *counts.entry("nopath".into()).or_insert(0) += 1; continue; } };
+        if matches!(name, "fsopen" | "fsconfig") { continue; } // "path" here is a filesystem name / option key
+        // legacy syscalls take cwd-relative or absolute paths
+        if ev.fd.is_none() {
+            bad("R1-dirfd", "path syscall without a directory descriptor");
+            continue;
+        }
+        let fd = ev.fd.unwrap();
+        if fd == libc::AT_FDCWD {
+            // (R4) entry points
+            let ok = (name == "openat" && (path == root_path || path == "/proc") && ev.flags.unwrap_or(0) & O_PATH_ != 0)
+                || (name == "open_tree" && path == "/proc")
+                || (name == "openat2" && path == ".")            // feature probe, first use only
+                || (name == "renameat2" && path == ".");          // feature probe
+            if ok { *counts.entry("R4".into()).or_insert(0) += 1; } else { bad("R4-cwd", "AT_FDCWD / absolute path that is not a documented entry point"); }
+            continue;
+        }
+        let fst = ev.fdid.as_ref().map(|i| i.fstype).unwrap_or(0);
+        if name == "openat2" {
+            let (_, _, r, _) = ev.how.unwrap_or((0, 0, 0, 0));
+            let need = if fst == PROC_MAGIC { RESOLVE_BENEATH | RESOLVE_NO_XDEV | RESOLVE_NO_MAGICLINKS } else { RESOLVE_IN_ROOT | RESOLVE_NO_MAGICLINKS };
+            if r & need != need { bad("R2-resolve", &format!("openat2 resolve flags 0x{:x} lack 0x{:x}", r, need)); } else { *counts.entry("R2".into()).or_insert(0) += 1; }
+            continue;
+        }
+        if path.is_empty() { *counts.entry("empty-path".into()).or_insert(0) += 1; continue; }
+        if path.contains('/') { bad("R1-single", "multi-component path outside openat2"); continue; }
+        let dotty = path == "." || path == "..";
+        match name {
+            "mkdirat" | "mknodat" | "unlinkat" | "symlinkat" | "renameat" | "renameat2" | "readlinkat" => { *counts.entry("R1".into()).or_insert(0) += 1; }
+            "linkat" => if ev.args[4] & 0x400 != 0 { bad("R1-nofollow", "linkat with AT_SYMLINK_FOLLOW") } else { *counts.entry("R1".into()).or_insert(0) += 1; },
+            "openat" => {
+                let f = ev.flags.unwrap_or(0);
+                if f & O_NOFOLLOW_ != 0 || dotty { *counts.entry("R1".into()).or_insert(0) += 1; }
+                else if fst == PROC_MAGIC && follow_allowed(op) { *counts.entry("R3".into()).or_insert(0) += 1; }
+                else { bad("R1-nofollow", "openat that follows a trailing symlink"); }
+            }
+            "newfstatat" | "statx" | "faccessat2" | "fchownat" | "utimensat" | "name_to_handle_at" => {
+                let f = ev.flags.unwrap_or(0);
+                if f & 0x100 != 0 || dotty { *counts.entry("R1".into()).or_insert(0) += 1; } else { bad("R1-nofollow", "stat-like call without AT_SYMLINK_NOFOLLOW"); }
+            }
+            "faccessat" | "fchmodat" => bad("R1-nofollow", "call cannot express no-follow"),
+            _ => { bad("R1-unknown", "unclassified path syscall"); }
+        }
+    }
+    v
+}
+
+// ------------------------------------------------------------------------------------------------ items
+
+#[derive(Clone, Debug)]
+pub enum Plan {
+    Attack { bound: u32, full: bool },
+    Trace,
+    Fault { bound: u32, cfg: FaultCfg },
+}
+
+#[derive(Clone, Debug)]
+pub struct Item {
+    pub scen: Scenario,
+    pub plan: Plan,
+    pub warm: bool,
+    /// 0 = kernel as is, 1 = fsopen -> ENOSYS (open_tree path), 2 = fsopen and open_tree -> ENOSYS (plain open of /proc)
+    pub mount_api: u8,
+    pub max_exec: u64,
+    /// several independent single executions bundled into one item (sweeps): each is a scenario of its own
+    pub bundle: Vec<Scenario>,
+}
+
+fn item(scen: Scenario, plan: Plan, max_exec: u64) -> Item { Item { scen, plan, warm: true, mount_api: 0, max_exec, bundle: vec![] } }
+
+/// Argument spellings for the input sweep of mutating operations (C03/C05/C11).
+pub fn sweep_paths() -> Vec<&'static str> {
+    vec!["..", ".", "a/..", "../..", "/", "", "a/b/../../..", "evil-dir", "evil-dir/x", "evil-rel", "evil-abs", "up", "up/..", "a/b/lnk", "/../../../secret",
+         "abs/../..", "evil-dir/secret", "e/f", "a", "a/b/c/d", "nonexist", "evil-dir/..", "evil-dir/a/b/c", "a/.", "a/b/c/", "../sibling", "../../a", "up/../..", "e/f/..", "file"]
+}
+
+pub fn sweep_scenarios(thorough: bool, capi: bool) -> Vec<Scenario> {
+    let mut ops: Vec<Op> = Vec::new();
+    let r = |n: &str| Op::new(n).root(ROOT_IN);
+    for p in sweep_paths() {
+        ops.push(r("remove_all").path(p));
+        ops.push(r("remove_file").path(p));
+        ops.push(r("remove_dir").path(p));
+        ops.push(r("mkdir_all").path(p).mode(0o755));
+        ops.push(r("create_file").path(p).flags(O_WRONLY).mode(0o644));
+        ops.push(r("create").path(p).itype("file").mode(0o644));
+        ops.push(r("create").path(p).itype("dir").mode(0o755));
+        ops.push(r("create").path(p).itype("symlink").path2("../../../../secret"));
+        ops.push(r("create").path(p).itype("hardlink").path2("e/f"));
+        ops.push(r("create").path("a/b/newhl").itype("hardlink").path2(p));
+        ops.push(r("rename").path(p).path2("a/b/renamed").flags(0));
+        ops.push(r("rename").path("e/f").path2(p).flags(0));
+        if thorough {
+            ops.push(r("create").path(p).itype("fifo").mode(0o644));
+            ops.push(r("create_file").path(p).flags(O_WRONLY | O_TRUNC).mode(0o600));
+            ops.push(r("rename").path("a/b").path2(p).flags(libc::RENAME_EXCHANGE as i64));
+            ops.push(r("rename").path(p).path2("e").flags(libc::RENAME_NOREPLACE as i64));
+            ops.push(r("mkdir_all").path(&format!("{}/n1/n2", p)).mode(0o700));
+            ops.push(r("remove_all").path(&format!("{}/c", p)));
+        }
+    }
+    let mut v = Vec::new();
+    for b in ["E", "K"] {
+        for op in &ops {
+            let mut op = op.clone();
+            if capi {
+                // the C entry points of the same operations
+                op = op.capi();
+                match (op.name.as_str(), op.itype.as_deref()) {
+                    ("create", Some("file")) => { op.name = "mknod".into(); op.mode = Some(libc::S_IFREG | 0o644); }
+                    ("create", Some("dir")) => { op.name = "mkdir".into(); }
+                    ("create", Some("fifo")) => { op.name = "mknod".into(); op.mode = Some(libc::S_IFIFO | 0o644); }
+                    ("create", Some("symlink")) => { op.name = "symlink".into(); }
+                    ("create", Some("hardlink")) => { op.name = "hardlink".into(); }
+                    _ => {}
+                }
+                op.itype = None;
+            }
+            v.push(Scenario { name: format!("{}/{}", b, op.brief()), backend: b.into(), op: op.clone(), path: format!("{} {}", op.path.clone().unwrap_or_default(), op.path2.clone().unwrap_or_default()) });
+        }
+    }
+    v
+}
+
+/// reopen / procfs scenarios (warm-up resolves a handle first)
+pub fn handle_scenarios(thorough: bool) -> Vec<Scenario> {
+    let mut v = Vec::new();
+    for b in ["E", "K"] {
+        let mut ops = vec![
+            Op::new("reopen").handle("h:e/f").flags(O_RDONLY),
+            Op::new("reopen").handle("h:a/b").flags(O_RDONLY | O_DIRECTORY),
+            Op::new("reopen").handle("h:e/f").flags(O_RDWR | O_APPEND),
+            Op::new("reopen").handle("nf:a/b/lnk").flags(O_RDONLY),
+            Op::new("reopen").handle("h:e/f").flags(O_RDONLY).capi(),
+            Op::new("proc_open").procfs("new").base("self").path("status").flags(O_RDONLY),
+            Op::new("proc_open_follow").procfs("new").base("thread-self").path("fd/3").flags(O_PATH),
+            Op::new("proc_readlink").procfs("new").base("self").path("fd/3"),
+            Op::new("proc_open").base("self").path("exe").flags(O_RDONLY).capi(),
+            Op::new("proc_readlink").base("thread-self").path("cwd").capi(),
+            Op::new("proc_open").procfs("new").base("root").path("sys/kernel/ostype").flags(O_RDONLY),
+        ];
+        if thorough {
+            ops.push(Op::new("proc_open").procfs("new").base("root").path("nonexistent").flags(O_RDONLY));
+            ops.push(Op::new("proc_open_follow").procfs("new").base("self").path("cwd").flags(O_RDONLY | O_DIRECTORY));
+            ops.push(Op::new("proc_open").base("thread-self").path("fd/3").flags(O_PATH | O_NOFOLLOW).capi());
+            ops.push(Op::new("handle_try_clone").handle("h:e/f"));
+            ops.push(Op::new("root_try_clone").root(ROOT_IN));
+        }
+        for op in ops {
+            v.push(Scenario { name: format!("{}/{}", b, op.brief()), backend: b.into(), op, path: String::new() });
+        }
+    }
+    v
+}
+
+/// handle keys of the form "h:<path>" / "nf:<path>" are resolved during warm-up
+pub fn handle_warmup(op: &Op) -> Vec<Op> {
+    match op.handle.as_deref() {
+        Some(h) if h.starts_with("h:") => vec![Op::new("resolve").root(ROOT_IN).path(&h[2..]).keep(h)],
+        Some(h) if h.starts_with("nf:") => vec![Op::new("resolve_nofollow").root(ROOT_IN).path(&h[3..]).keep(h)],
+        _ => vec![],
     }
 }
 
-pub fn n_items(prop: &str, tier: &str) -> usize { scope(prop, tier).scenarios.len() }
+fn fault_cfg(th: bool) -> FaultCfg {
+    FaultCfg { all_syscalls: th, per_class: if th { 7 } else { 3 }, eagain_runs: vec![15, 16, 17], exhaustion: true }
+}
+
+pub fn items(prop: &str, tier: &str) -> Vec<Item> {
+    let th = tier == "thorough";
+    let mut v = Vec::new();
+    let bundle = |name: &str, scens: Vec<Scenario>, size: usize, warm: bool, mount_api: u8, out: &mut Vec<Item>| {
+        for (i, ch) in scens.chunks(size).enumerate() {
+            let s0 = Scenario { name: format!("{}#{}", name, i), backend: ch[0].backend.clone(), op: ch[0].op.clone(), path: String::new() };
+            out.push(Item { scen: s0, plan: Plan::Trace, warm, mount_api, max_exec: 1, bundle: ch.to_vec() });
+        }
+    };
+    match prop {
+        "C02" => for s in lookup_scenarios(th) { v.push(item(s, Plan::Attack { bound: if th { 2 } else { 1 }, full: !th }, if th { 60_000 } else { 3_000 })); },
+        "C03" => {
+            for s in mutating_scenarios(th) { v.push(item(s, Plan::Attack { bound: if th { 2 } else { 1 }, full: !th }, if th { 60_000 } else { 3_000 })); }
+            bundle("sweep-rust", sweep_scenarios(th, false), 40, true, 0, &mut v);
+            if th { bundle("sweep-c", sweep_scenarios(th, true), 40, true, 0, &mut v); }
+        }
+        "C05" => {
+            let mut all: Vec<Scenario> = Vec::new();
+            all.extend(lookup_scenarios(true));
+            all.extend(mutating_scenarios(true));
+            all.extend(handle_scenarios(true));
+            all.extend(sweep_scenarios(false, false).into_iter().step_by(if th { 1 } else { 3 }));
+            if th { all.extend(sweep_scenarios(false, true)); }
+            bundle("warm", all.clone(), 40, true, 0, &mut v);
+            // cold lazies and "no new mount API" on a smaller family
+            let small: Vec<Scenario> = all.iter().step_by(if th { 2 } else { 9 }).cloned().collect();
+            bundle("cold", small.clone(), 30, false, 0, &mut v);
+            bundle("cold-nofsopen", small.clone(), 30, false, 1, &mut v);
+            bundle("cold-nomountapi", small.clone(), 30, false, 2, &mut v);
+            bundle("warm-nofsopen", small.clone(), 30, true, 1, &mut v);
+            bundle("warm-nomountapi", small, 30, true, 2, &mut v);
+        }
+        "C10" => {
+            let mut scens: Vec<Scenario> = Vec::new();
+            scens.extend(lookup_scenarios(th).into_iter().step_by(if th { 1 } else { 3 }));
+            scens.extend(mutating_scenarios(th).into_iter().step_by(if th { 1 } else { 2 }));
+            scens.extend(handle_scenarios(th).into_iter().step_by(if th { 1 } else { 2 }));
+            for s in scens.clone() { v.push(item(s, Plan::Fault { bound: 1, cfg: fault_cfg(th) }, if th { 40_000 } else { 4_000 })); }
+            // first-use initialisation of the internal procfs handle: cold lazies
+            for s in scens.into_iter().step_by(if th { 3 } else { 8 }) {
+                let mut it = item(s, Plan::Fault { bound: 1, cfg: fault_cfg(th) }, if th { 40_000 } else { 4_000 });
+                it.warm = false;
+                it.scen.name = format!("cold:{}", it.scen.name);
+                v.push(it);
+            }
+        }
+        "C11" => {
+            let mut all: Vec<Scenario> = Vec::new();
+            all.extend(lookup_scenarios(true));
+            all.extend(mutating_scenarios(true));
+            all.extend(handle_scenarios(true));
+            all.extend(sweep_scenarios(false, false).into_iter().step_by(if th { 1 } else { 2 }));
+            all.extend(sweep_scenarios(false, true).into_iter().step_by(if th { 1 } else { 2 }));
+            bundle("table-warm", all.clone(), 40, true, 0, &mut v);
+            bundle("table-cold", all.iter().step_by(7).cloned().collect(), 30, false, 0, &mut v);
+            bundle("table-cold-nofsopen", all.iter().step_by(11).cloned().collect(), 30, false, 1, &mut v);
+            bundle("table-cold-nomountapi", all.iter().step_by(11).cloned().collect(), 30, false, 2, &mut v);
+            // error paths under injected faults and attacker interleavings
+            let mut f: Vec<Scenario> = Vec::new();
+            f.extend(lookup_scenarios(false).into_iter().step_by(if th { 2 } else { 6 }));
+            f.extend(mutating_scenarios(false).into_iter().step_by(if th { 2 } else { 5 }));
+            f.extend(handle_scenarios(false).into_iter().step_by(if th { 2 } else { 5 }));
+            for s in f.clone() { v.push(item(s, Plan::Fault { bound: 1, cfg: FaultCfg { all_syscalls: false, per_class: if th { 3 } else { 1 }, eagain_runs: vec![16], exhaustion: true } }, if th { 20_000 } else { 2_000 })); }
+            for s in f.into_iter().filter(|s| !s.path.is_empty()).step_by(2) { v.push(item(s, Plan::Attack { bound: 1, full: false }, 2_000)); }
+        }
+        _ => {}
+    }
+    v
+}
+
+pub fn n_items(prop: &str, tier: &str) -> usize { items(prop, tier).len() }
+
+fn spec_for(it: &Item, scen: &Scenario) -> OneShot {
+    let mut os = oneshot(&scen.backend, scen.op.clone(), it.warm);
+    os.warmup.extend(handle_warmup(&scen.op));
+    if it.mount_api >= 1 { os.setup.deny.push("fsopen".to_string()); }
+    if it.mount_api >= 2 { os.setup.deny.push("open_tree".to_string()); }
+    os
+}
+
+/// post-condition of a successful operation (C10: "does not report success for work it did not do")
+fn postcondition(scen: &Scenario, o: &Obs) -> Option<String> {
+    let root_out = out(ROOT_IN);
+    let rootfd = open_path(&root_out).ok()?;
+    use std::os::unix::io::AsRawFd;
+    let look = |p: &str, nofollow: bool| openat2(rootfd.as_raw_fd(), p, (O_PATH | if nofollow { O_NOFOLLOW } else { 0 }) as u64, RESOLVE_IN_ROOT | RESOLVE_NO_MAGICLINKS).ok().and_then(|fd| fstat(fd.as_raw_fd()));
+    let op = &scen.op;
+    let path = op.path.clone().unwrap_or_default();
+    match op.name.as_str() {
+        "resolve" | "open_subpath" => { let st = look(&path, op.flags.unwrap_or(0) & O_NOFOLLOW != 0)?; let fd = o.fd.as_ref()?; if (st.dev, st.ino) != (fd.dev, fd.ino) { return Some(format!("returned object is not what {} resolves to", path)); } None }
+        "resolve_nofollow" => { let st = look(&path, true)?; let fd = o.fd.as_ref()?; if (st.dev, st.ino) != (fd.dev, fd.ino) { return Some("returned object is not the nofollow resolution".into()); } None }
+        "create" | "create_file" | "mkdir" | "mknod" | "symlink" | "hardlink" => if look(&path, true).is_none() { Some(format!("reported success but {} does not exist", path)) } else { None },
+        "mkdir_all" => match look(&path, false) { Some(st) if st.is_dir() => { let fd = o.fd.as_ref()?; if (st.dev, st.ino) != (fd.dev, fd.ino) { Some("mkdir_all handle is not the directory at the path".into()) } else { None } } _ => Some(format!("reported success but {} is not a directory", path)) },
+        "remove_file" | "remove_dir" | "remove_all" => if look(&path, true).is_some() { Some(format!("reported success but {} still exists", path)) } else { None },
+        "rename" => { let p2 = op.path2.clone().unwrap_or_default(); if op.flags.unwrap_or(0) == 0 && (look(&path, true).is_some() || look(&p2, true).is_none()) { Some("rename reported success but the entries did not move".into()) } else { None } }
+        _ => None,
+    }
+}
+
+/// Judge one execution for `prop`. Returns (key, description) pairs.
+fn judge(prop: &str, it: &Item, scen: &Scenario, w: &World, eo: &ExecOut, counts: &mut BTreeMap<String, u64>) -> MResult<Vec<(String, String)>> {
+    let mut v: Vec<(String, String)> = Vec::new();
+    let obs = eo.final_obs(0);
+    let died = obs.is_none();
+    let panic = obs.and_then(|o| o.panic.clone());
+    // panic class: source file + head of the message (line numbers would shift with every edit of the file)
+    let site = |p: &str| { let loc = p.rsplit('@').next().unwrap_or("").trim(); let file = loc.rsplit_once(':').map(|x| x.0).unwrap_or(loc).trim_start_matches("/repo/"); format!("{}:{}", file, p.chars().take(44).collect::<String>()) };
+    match prop {
+        "C05" => { v.extend(discipline_monitor(&scen.op, eo, counts)); }
+        "C11" => {
+            if let Some(o) = obs {
+                let before: BTreeMap<i32, &FdEnt> = o.fds_before.iter().map(|e| (e.fd, e)).collect();
+                let after: BTreeMap<i32, &FdEnt> = o.fds_after.iter().map(|e| (e.fd, e)).collect();
+                let ret = o.fd.as_ref().map(|f| f.fd);
+                let mut extra = 0;
+                for (fd, e) in &after {
+                    match before.get(fd) {
+                        Some(b) => if (b.dev, b.ino) != (e.dev, e.ino) { v.push(("fd-replaced".into(), format!("descriptor {} refers to a different object after the call", fd))); },
+                        None => {
+                            if Some(*fd) == ret { if !e.cloexec { v.push(("returned-no-cloexec".into(), format!("returned descriptor {} is not close-on-exec", fd))); } continue; }
+                            // cold runs: the process-lifetime procfs handle (root of a procfs: inode 1) may appear once
+                            if !it.warm && e.ino == 1 && extra == 0 { extra += 1; continue; }
+                            let cr = eo.events.iter().rev().find(|ev| ev.rval == *fd as i64 && ev.retid.is_some());
+                            v.push((format!("leak:{}", cr.map(|e| e.name.clone()).unwrap_or_default()), format!("descriptor {} leaked (created by {})", fd, cr.map(|e| e.brief()).unwrap_or_default())));
+                        }
+                    }
+                }
+                for fd in before.keys() { if !after.contains_key(fd) { v.push(("closed-lent".into(), format!("descriptor {} that was open before the call is closed afterwards", fd))); } }
+                counts.entry("tables_compared".into()).and_modify(|n| *n += 1).or_insert(1);
+            }
+        }
+        _ => {}
+    }
+    if matches!(prop, "C02" | "C03" | "C10") {
+        if eo.timeout || eo.horizon_hit { v.push(("hang".into(), format!("did not terminate within the horizon (timeout={}, horizon={})", eo.timeout, eo.horizon_hit))); return Ok(v); }
+        if died { v.push((format!("crash:sig{:?}", eo.killed.first().cloned().flatten()), format!("worker died: {}", outcome_text(w, eo, 0)))); return Ok(v); }
+        if let Some(p) = &panic { v.push((format!("panic:{}", site(p)), format!("panic: {}", p))); return Ok(v); }
+        let o = obs.unwrap();
+        if o.ok {
+            if let Some(fd) = &o.fd {
+                // a pre-existing object that was never reachable from the root (an inode the library itself created
+                // during the call is judged through its parent directory by the monitors below)
+                if fd.fstype == TMPFS_MAGIC && !eo.ever_inside.contains(&(fd.dev, fd.ino)) && w.labels.contains_key(&(fd.dev, fd.ino)) {
+                    v.push(("escape".into(), format!("returned {} which was never inside the root", lab(w, (fd.dev, fd.ino)))));
+                }
+            }
+        }
+        if let Some(x) = containment_monitor(w, eo, prop != "C02") { v.push(x); }
+        if prop != "C02" { if let Some(x) = outside_effects(w, eo)? { v.push(x); } }
+        if prop == "C10" {
+            if o.ok && eo.applied.is_empty() {
+                if let Some(why) = postcondition(scen, o) { v.push((format!("false-success:{}", scen.op.name), why)); }
+            }
+            // EAGAIN semantics: 16 in a row => safety violation, fewer => as if nothing happened
+            for (_, f) in &eo.faults {
+                if (f == "EAGAINx16" || f == "EAGAINx17") && (o.ok || o.errno != Some(libc::EXDEV)) {
+                    v.push((format!("eagain16:{}", scen.op.name), format!("16 consecutive EAGAINs from openat2 ended as {} instead of a safety violation", outcome_text(w, eo, 0))));
+                }
+                if (f == "EAGAIN" || f == "EAGAINx15") && !o.ok && o.errno == Some(libc::EAGAIN) {
+                    v.push((format!("eagain-not-retried:{}", scen.op.name), format!("{} EAGAIN(s) from openat2 surfaced as {} instead of being retried", if f == "EAGAIN" { "1" } else { "15" }, outcome_text(w, eo, 0))));
+                }
+            }
+        }
+    }
+    Ok(v)
+}
+
+/// violation class: call sites (C05) do not depend on the backend, everything else is keyed per backend
+fn vkey(prop: &str, scen: &Scenario, k: &str) -> String {
+    if prop == "C05" { k.to_string() } else { format!("{}:{}", scen.backend, k) }
+}
 
 pub fn run_item(prop: &str, tier: &str, idx: usize, only: Option<&Value>) -> MResult<ItemResult> {
-    let sc = scope(prop, tier);
-    let scen = sc.scenarios.get(idx).ok_or_else(|| Mach("bad item".into()))?.clone();
+    let its = items(prop, tier);
+    let it = its.get(idx).ok_or_else(|| Mach("bad item".into()))?.clone();
     enter_jail()?;
     install_alarm_handler();
     let mut res = ItemResult::default();
-    let muts = mutations_for(&scen.path, sc.full_alphabet);
     let mut states: BTreeSet<u64> = BTreeSet::new();
     let mut nontrivial: BTreeSet<u64> = BTreeSet::new();
-    let mut undisturbed_sigs: Option<Vec<String>> = None;
+    let mut counts: BTreeMap<String, u64> = BTreeMap::new();
 
-    let mut one = |ch: &mut Chooser, res: &mut ItemResult, confirm: bool| -> MResult<Option<(String, String, String)>> {
+    // one complete execution of `scen` under `ch`; returns the violations found
+    let mut one = |scen: &Scenario, ch: &mut Chooser, res: &mut ItemResult, confirm: bool, counts: &mut BTreeMap<String, u64>| -> MResult<(Vec<(String, String)>, String)> {
         let w = fresh_world()?;
-        let cfg = ExecCfg { specs: vec![oneshot(&scen.backend, scen.op.clone(), true)], mode: Mode::Attack(muts.clone()), root_out: out(ROOT_IN), horizon: 200_000, timeout_s: 60 };
+        let mode = match &it.plan {
+            Plan::Attack { full, .. } => Mode::Attack(mutations_for(&scen.path, *full)),
+            Plan::Trace => Mode::Trace,
+            Plan::Fault { cfg, .. } => Mode::Fault(cfg.clone()),
+        };
+        let cfg = ExecCfg { specs: vec![spec_for(&it, scen)], mode, root_out: out(ROOT_IN), horizon: 300_000, timeout_s: 60 };
         let eo = execute(&cfg, ch)?;
         let otext = outcome_text(&w, &eo, 0);
-        let applied: Vec<String> = eo.applied.iter().map(|(i, m)| format!("{}@{}", m, i)).collect();
+        let devs: Vec<String> = eo.applied.iter().map(|(i, m)| format!("{}@{}", m, i)).chain(eo.faults.iter().map(|(i, f)| format!("{}@{}:{}", f, i, eo.events.get(*i).map(|e| e.sig()).unwrap_or_default()))).collect();
         if !confirm {
             res.evaluations += 1;
             res.transitions += eo.events.len() as u64;
@@ -168,113 +533,134 @@ pub fn run_item(prop: &str, tier: &str, idx: usize, only: Option<&Value>) -> MRe
             let mut ai = 0;
             for (i, _) in eo.events.iter().enumerate() {
                 while ai < eo.applied.len() && eo.applied[ai].0 <= i { tstate += &eo.applied[ai].1; ai += 1; }
-                states.insert(hash64(&format!("{}#{}", tstate, i)));
+                states.insert(hash64(&format!("{}|{}#{}", scen.name, tstate, i)));
             }
-            res.outcome(format!("{} after [{}]", otext, eo.applied.iter().map(|(_, m)| m.clone()).collect::<Vec<_>>().join(",")));
-            if !eo.applied.is_empty() && !otext.starts_with("ok[") || eo.applied.len() > 1 { nontrivial.insert(hash64(&format!("{:?}", applied))); } else if !eo.applied.is_empty() { nontrivial.insert(hash64(&format!("{:?}", applied))); }
+            let devnames: Vec<String> = eo.applied.iter().map(|(_, m)| m.clone()).chain(eo.faults.iter().map(|(i, f)| format!("{}:{}", f, eo.events.get(*i).map(|e| e.name.clone()).unwrap_or_default()))).collect();
+            res.outcome(format!("{} after [{}]", otext, devnames.join(",")));
+            if !devs.is_empty() || matches!(it.plan, Plan::Trace) { nontrivial.insert(hash64(&format!("{}{:?}", scen.name, devs))); }
             res.max("choice_points_per_execution", ch.trace.len() as u64);
-            if eo.applied.len() == 1 && res.samples.len() < 2 { res.sample(json!({"scenario": scen.name, "mutation": applied, "result": otext, "choices": ch.choices()})); }
+            res.max("syscalls_per_execution", eo.events.len() as u64);
+            res.count("syscalls_checked", eo.events.len() as u64);
+            if res.samples.len() < 2 && (!devs.is_empty() || matches!(it.plan, Plan::Trace)) { res.sample(json!({"scenario": scen.name, "deviations": devs, "result": otext, "choices": ch.choices(), "syscalls": eo.events.len()})); }
         }
-        // ---- verdict
-        let mut verdict: Option<(String, String)> = None;
-        if eo.timeout || eo.horizon_hit { verdict = Some(("hang".into(), format!("did not terminate within the horizon (timeout={}, horizon={})", eo.timeout, eo.horizon_hit))); }
-        else {
-            match eo.final_obs(0) {
-                None => verdict = Some(("crash".into(), format!("worker died: {}", otext))),
-                Some(o) => {
-                    if let Some(p) = &o.panic { verdict = Some((format!("panic:{}", p.rsplit('@').next().unwrap_or("").trim()), format!("panic: {}", p))); }
-                    else if o.ok {
-                        if let Some(fd) = &o.fd {
-                            // a pre-existing object that was never reachable from the root. (An inode the library itself
-                            // created during the call is judged through its parent directory by the monitors below.)
-                            if !eo.ever_inside.contains(&(fd.dev, fd.ino)) && w.labels.contains_key(&(fd.dev, fd.ino)) {
-                                verdict = Some(("escape".into(), format!("returned {} which was never inside the root", lab(&w, (fd.dev, fd.ino)))));
-                            }
-                        }
-                    }
-                }
-            }
-        }
-        if verdict.is_none() { verdict = containment_monitor(&w, &eo, prop == "C03"); }
-        if verdict.is_none() && prop == "C03" { verdict = outside_effects(&w, &eo)?; }
-        Ok(verdict.map(|(k, d)| (k, format!("{} under attacker schedule [{}]: {}", scen.name, applied.join(", "), d), otext)))
+        let vs = judge(prop, &it, scen, &w, &eo, counts)?;
+        let vs = vs.into_iter().map(|(k, d)| (k, format!("{}{} [{}]: {}", scen.name, if it.warm { "" } else { " (cold)" }, devs.join(", "), d))).collect();
+        Ok((vs, otext))
     };
 
     if let Some(o) = only {
+        let scen: Scenario = match o.get("bundle_index").and_then(|x| x.as_u64()) { Some(i) => it.bundle[i as usize].clone(), None => it.scen.clone() };
         let mut ch = Chooser::new(forced_from_json(&o["choices"]));
-        if let Some((k, d, _)) = one(&mut ch, &mut res, false)? { res.violate(format!("{}:{}", scen.backend, k), d, o.clone()); }
+        let (vs, otext) = one(&scen, &mut ch, &mut res, false, &mut counts)?;
+        println!("outcome: {}", otext);
+        for (k, d) in vs { res.violate(vkey(prop, &scen, &k), d, o.clone()); }
         return Ok(res);
     }
 
-    // determinism self-test: the undisturbed execution twice, identical syscall signatures. A run in which the kernel
-    // answered EAGAIN to openat2 by itself (global rename/mount seqlocks disturbed by anything else on the machine)
-    // is not a sample of the library's determinism and is repeated.
-    let mut tries = 0;
-    while tries < 20 {
-        tries += 1;
-        let _w = fresh_world()?;
-        let cfg = ExecCfg { specs: vec![oneshot(&scen.backend, scen.op.clone(), true)], mode: Mode::Trace, root_out: out(ROOT_IN), horizon: 200_000, timeout_s: 60 };
-        let eo = execute(&cfg, &mut Chooser::new(vec![]))?;
-        if eo.events.iter().any(|e| e.name == "openat2" && e.rval == -(libc::EAGAIN as i64)) { continue; }
-        let sigs: Vec<String> = eo.events.iter().map(|e| e.sig()).collect();
-        match &undisturbed_sigs {
-            None => undisturbed_sigs = Some(sigs),
-            Some(prev) => {
-                if *prev != sigs {
-                    let d = prev.iter().zip(sigs.iter()).position(|(a, b)| a != b).unwrap_or(prev.len().min(sigs.len()));
-                    return mach(format!("DETERMINISM SELF-TEST FAILED for {}: two undisturbed runs differ at syscall {} ({:?} vs {:?}; lengths {} / {})", scen.name, d, prev.get(d), sigs.get(d), prev.len(), sigs.len()));
-                }
-                break;
+    if !it.bundle.is_empty() {
+        // sweep: independent single executions
+        for (bi, scen) in it.bundle.iter().enumerate() {
+            let mut ch = Chooser::new(vec![]);
+            let (vs, _) = one(scen, &mut ch, &mut res, false, &mut counts)?;
+            for (k, d) in vs {
+                res.violate(vkey(prop, scen, &k), d, json!({"engine": "sysmc", "item": idx, "bundle_index": bi, "scenario": scen.name, "choices": []}));
             }
         }
-    }
-
-    let mut pending: Vec<(Vec<(u32, String)>, String, String, String)> = Vec::new();
-    let stats = explore(sc.bound, sc.max_exec, |ch| {
-        if let Some((k, d, otext)) = one(ch, &mut res, false)? { pending.push((forced_of(ch), k, d, otext)); }
-        Ok(())
-    })?;
-    // confirm every failing execution by replaying its choice list once
-    for (forced, k, d, otext) in pending {
-        let mut confirmed = false;
-        let mut last = None;
-        for _ in 0..3 {
-            let mut ch = Chooser::new(forced.clone());
-            let again = one(&mut ch, &mut res, true)?;
-            if let Some((k2, _, o2)) = &again { if *k2 == k && *o2 == otext { confirmed = true; break; } }
-            last = again.map(|x| (x.0, x.2));
+        res.bound_completed = Some(0);
+    } else {
+        let scen = it.scen.clone();
+        let bound = match &it.plan { Plan::Attack { bound, .. } => *bound, Plan::Fault { bound, .. } => *bound, Plan::Trace => 0 };
+        // determinism self-test: the undisturbed execution twice, identical syscall signatures. A run in which the kernel
+        // answered EAGAIN to openat2 by itself (global rename/mount seqlocks disturbed by anything else on the machine)
+        // is not a sample of the library's determinism and is repeated.
+        let mut undisturbed: Option<Vec<String>> = None;
+        let mut tries = 0;
+        while tries < 20 {
+            tries += 1;
+            let _w = fresh_world()?;
+            let cfg = ExecCfg { specs: vec![spec_for(&it, &scen)], mode: Mode::Trace, root_out: out(ROOT_IN), horizon: 300_000, timeout_s: 60 };
+            let eo = execute(&cfg, &mut Chooser::new(vec![]))?;
+            if eo.events.iter().any(|e| e.name == "openat2" && e.rval == -(libc::EAGAIN as i64)) { continue; }
+            let sigs: Vec<String> = eo.events.iter().map(|e| e.sig()).collect();
+            match &undisturbed {
+                None => undisturbed = Some(sigs),
+                Some(prev) => {
+                    if *prev != sigs {
+                        let d = prev.iter().zip(sigs.iter()).position(|(a, b)| a != b).unwrap_or(prev.len().min(sigs.len()));
+                        return mach(format!("DETERMINISM SELF-TEST FAILED for {}: two undisturbed runs differ at syscall {} ({:?} vs {:?}; lengths {} / {})", scen.name, d, prev.get(d), sigs.get(d), prev.len(), sigs.len()));
+                    }
+                    break;
+                }
+            }
         }
-        if confirmed {
-            res.violate(format!("{}:{}", scen.backend, k), d, json!({"engine": "sysmc", "item": idx, "scenario": scen.name, "choices": forced}));
-        } else {
-            return mach(format!("NON-REPRODUCIBLE failure in {}: first [{}] {}, on replay {:?}", scen.name, k, otext, last));
+        let mut pending: Vec<(Vec<(u32, String)>, Vec<(String, String)>, String)> = Vec::new();
+        let stats = explore(bound, it.max_exec, |ch| {
+            let (vs, otext) = one(&scen, ch, &mut res, false, &mut counts)?;
+            if !vs.is_empty() { pending.push((forced_of(ch), vs, otext)); }
+            Ok(())
+        })?;
+        // confirm every failing execution by replaying its choice list (a spurious kernel EAGAIN may disturb a replay: up to 3 tries)
+        for (forced, vs, otext) in pending {
+            let keys: BTreeSet<String> = vs.iter().map(|x| x.0.clone()).collect();
+            let mut confirmed = false;
+            let mut last = String::new();
+            for _ in 0..3 {
+                let mut ch = Chooser::new(forced.clone());
+                let (vs2, o2) = one(&scen, &mut ch, &mut res, true, &mut counts)?;
+                let keys2: BTreeSet<String> = vs2.iter().map(|x| x.0.clone()).collect();
+                if keys2 == keys && o2 == otext { confirmed = true; break; }
+                last = format!("{:?} {}", keys2, o2);
+            }
+            if !confirmed { return mach(format!("NON-REPRODUCIBLE failure in {}: first {:?} {}, on replay {}", scen.name, keys, otext, last)); }
+            for (k, d) in vs { res.violate(vkey(prop, &scen, &k), d, json!({"engine": "sysmc", "item": idx, "scenario": scen.name, "choices": forced})); }
         }
+        res.bound_completed = Some(if stats.capped { 0 } else { bound as u64 });
+        if stats.capped { res.caps_hit.push(format!("{}: execution cap {} reached at bound {}", scen.name, it.max_exec, bound)); }
+        res.count("executions", stats.executions);
     }
     res.states = states.len() as u64;
     res.traces_validated = res.evaluations;
     res.nontrivial = nontrivial.len() as u64;
-    res.bound_completed = Some(if stats.capped { 0 } else { sc.bound as u64 });
-    if stats.capped { res.caps_hit.push(format!("{}: execution cap {} reached at bound {}", scen.name, sc.max_exec, sc.bound)); }
-    res.count("executions", stats.executions);
-    res.count("mutations_in_alphabet", muts.len() as u64);
+    for (k, n) in counts { res.count(&format!("rule_{}", k), n); }
     Ok(res)
 }
 
 pub fn report(prop: &str, tier: &str) -> Report {
-    let sc = scope(prop, tier);
-    Report {
-        level: "model_checking",
-        rule: format!("{} scenarios (operation x path x backend on the race tree T_race); in every scenario every attacker mutation of the alphabet ({} alphabet: exchange with a symlink to a decoy / with an outside directory / with a file, move out of the root and back, replace a link on the path, remove) is tried immediately before every tree-relevant syscall of the library, all schedules with <= {} mutations; non-trivial = distinct non-empty mutation placements; states = distinct (tree state, syscall index) pairs",
-            sc.scenarios.len(), if sc.full_alphabet { "full" } else { "core" }, sc.bound),
-        assumptions: vec![
-            "races inside a single openat2 call are the kernel's business; schedules are explored between syscalls".into(),
-            "the attacker cannot rename the root directory or its ancestors (outside the library's threat model)".into(),
-            "partial-order reduction: mutations are placed only before syscalls that read or write the tree's namespace (any other placement commutes)".into(),
-            "fstat on an already open descriptor is independent of rename/exchange/unlink mutations".into(),
-            "Linux 6.18, tmpfs".into(),
-        ],
-        exhaustive: true,
-        extra: json!({"scenarios": sc.scenarios.len(), "deviation_bound": sc.bound, "traces_rule": "every explored trace is an execution of the real implementation under ptrace; failing traces are replayed once and must reproduce"}),
+    let its = items(prop, tier);
+    let nscen: usize = its.iter().map(|i| if i.bundle.is_empty() { 1 } else { i.bundle.len() }).sum();
+    let th = tier == "thorough";
+    let common = vec![
+        "races inside a single system call are the kernel's business; schedules/faults are explored at syscall boundaries".to_string(),
+        "Linux 6.18, tmpfs; kernel-without-X is simulated by ENOSYS answers (seccomp / ptrace injection)".to_string(),
+    ];
+    match prop {
+        "C02" | "C03" => Report {
+            level: "model_checking",
+            rule: format!("{} scenarios (operation x path x backend on the race tree T_race{}); in every attack scenario every mutation of the alphabet ({} alphabet: exchange with a symlink to a decoy / an outside directory / a file, move out of the root and back, replace a link on the path, remove) is tried immediately before every tree-relevant syscall of the library, all schedules with <= {} mutations; non-trivial = distinct non-empty mutation placements (and every sweep input); states = distinct (scenario, tree state, syscall index)",
+                nscen, if prop == "C03" { "; plus an input sweep of every mutating operation over 30 argument spellings incl. '.', '..', absolute paths and links pointing outside" } else { "" }, if th { "core" } else { "full" }, if th { 2 } else { 1 }),
+            assumptions: [common, vec![
+                "the attacker cannot rename the root directory or its ancestors (outside the library's threat model)".into(),
+                "partial-order reduction: mutations are placed only before syscalls that read or write the tree's namespace (any other placement commutes); fstat on an open descriptor is independent of rename/exchange/unlink".into(),
+                "an inode the library creates inside an ever-inside directory counts as inside".into(),
+            ]].concat(),
+            exhaustive: true,
+            extra: json!({"scenarios": nscen, "deviation_bound": if th { 2 } else { 1 }}),
+        },
+        "C05" => Report {
+            level: "exploration",
+            rule: format!("{} executions: every lookup / mutating / reopen / procfs scenario and the argument sweep, x backends {{openat2, no openat2}} x {{warm, cold lazies}} x {{new mount API, fsopen+open_tree -> ENOSYS}}; EVERY syscall of every execution is checked against the allow-list automaton R1-R4 + close-on-exec + O_NOCTTY; distinct = distinct scenarios", nscen),
+            assumptions: common, exhaustive: true, extra: json!({"executions": nscen}),
+        },
+        "C10" => Report {
+            level: "fault_enumeration",
+            rule: format!("{} scenarios; for every syscall index i of the scenario's trace ({}) and every errno of the class catalogue (first {} per class) one execution with that single fault injected at i (ptrace: syscall skipped, -errno returned), plus EAGAIN x{{15,16,17}} runs on openat2 and descriptor exhaustion from i on; cold variants include first-use initialisation of the procfs handle; distinct = distinct (scenario, index, fault)", nscen, if th { "every syscall" } else { "path-taking and descriptor-creating syscalls" }, if th { 7 } else { 3 }),
+            assumptions: common, exhaustive: true, extra: json!({"scenarios": nscen}),
+        },
+        _ => Report {
+            level: "fault_enumeration",
+            rule: format!("{} scenarios: descriptor table (number -> object, close-on-exec) listed before and after every call of the lookup/mutating/reopen/procfs scenarios and the argument sweep (Rust and C entry points, both backends, warm and cold), under every single injected fault (path-taking/descriptor-creating syscalls) and under every single attacker mutation; distinct = distinct (scenario, deviation)", nscen),
+            assumptions: common, exhaustive: true, extra: json!({"scenarios": nscen}),
+        },
     }
 }
 
@@ -283,7 +669,9 @@ pub fn trace_cmd(backend: &str, op: Op, warm: bool) -> MResult<()> {
     enter_jail()?;
     install_alarm_handler();
     let w = fresh_world()?;
-    let cfg = ExecCfg { specs: vec![oneshot(backend, op, warm)], mode: Mode::Trace, root_out: out(ROOT_IN), horizon: 500_000, timeout_s: 60 };
+    let mut os = oneshot(backend, op.clone(), warm);
+    os.warmup.extend(handle_warmup(&op));
+    let cfg = ExecCfg { specs: vec![os], mode: Mode::Trace, root_out: out(ROOT_IN), horizon: 500_000, timeout_s: 60 };
     let t0 = now();
     let eo = execute(&cfg, &mut Chooser::new(vec![]))?;
     for (i, e) in eo.events.iter().enumerate() {
@@ -291,5 +679,8 @@ pub fn trace_cmd(backend: &str, op: Op, warm: bool) -> MResult<()> {
     }
     println!("result: {}  ({} syscalls, {:.1} ms)", outcome_text(&w, &eo, 0), eo.events.len(), t0.elapsed().as_secs_f64() * 1e3);
     if let Some(o) = eo.final_obs(0) { println!("obs: {}", serde_json::to_string(o).unwrap()); }
+    let mut counts = BTreeMap::new();
+    for (k, d) in discipline_monitor(&op, &eo, &mut counts) { println!("C05 {}: {}", k, d); }
+    println!("C05 counts: {:?}", counts);
     Ok(())
 }
